@@ -72,6 +72,23 @@ def has_unanchored(p) -> bool:
     return any(has_unanchored(x) for x in subs)
 
 
+def has_inexact_amount(p) -> bool:
+    """an offset / jitter / interval amount that is not a binary fraction (1/8 s) of a second: finding F15"""
+    from common import exact_secs
+    k = p[0]
+    if k == 'interval':
+        return not exact_secs(p[2])
+    if k == 'offset':
+        return not exact_secs(p[1]) or has_inexact_amount(p[3])
+    if k == 'jitter':
+        return not exact_secs(p[1]) or not exact_secs(p[2]) or has_inexact_amount(p[4])
+    if k == 'group':
+        return any(has_inexact_amount(x) for x in p[2])
+    if k in ('earliest', 'latest'):
+        return has_inexact_amount(p[5])
+    return False
+
+
 def spec_from_json(x):
     if isinstance(x, list):
         if x and isinstance(x[0], str):
@@ -404,6 +421,8 @@ class ProdProp:
 
     def known_signature(self, case: ProdCase, pid: int, dt: int, res: str, msg: str) -> str | None:
         spec = case.specs[pid]
+        if self.pid == 'C13' and has_inexact_amount(spec) and 'F15:1ns' in msg:
+            return 'F15'
         if self.pid == 'C16' and res in ('err DIVERGED', 'err ValueError', 'err OverflowError') and _has_filtered_interval(spec):
             return 'F7a'
         return None
@@ -417,7 +436,8 @@ class ProdProp:
             mdefs, mres, agrees = {}, [], False
         else:
             mdefs, mres = model_answers(case)
-            agrees = len(mres) == len(case.impl) and all(self.same(a, b) for a, b in zip(case.impl, mres))
+            inexact = self.pid == 'C13' and any(has_inexact_amount(sp) for sp in case.specs.values())
+            agrees = len(mres) == len(case.impl) and all(self.same(a, b, inexact) for a, b in zip(case.impl, mres))
         run.stats['inconclusive_watchdog'] = run.stats.get('inconclusive_watchdog', 0) + case.meta.get('inconclusive', 0)
         for (pid, dt), res in zip(case.queries, case.impl):
             run.nontrivial.add((case.tz, prod_sx(case.specs[pid]), dt))
@@ -462,14 +482,16 @@ class ProdProp:
                 run.findings.append(Finding('correspondence', f'definition of {prod_sx(case.specs[pid])[:150]}: code {case.defs[pid]} / model {mdefs[pid]}',
                                             {**case.to_json(), 'broken': 'correspondence prod/define'}))
         for i, ((pid, dt), a, b) in enumerate(zip(case.queries, case.impl, mres)):
-            if not self.same(a, b):
+            if not self.same(a, b, self.pid == 'C13' and has_inexact_amount(case.specs[pid])):
                 run.findings.append(Finding(
                     'correspondence',
                     f'producer model and code differ in zone {case.tz} for get_next({dt}) of {prod_sx(case.specs[pid])[:200]}: code {a} / model {b}',
                     {**case.to_json(), 'broken': 'correspondence prod/' + self.pid, 'query': i}))
                 break
 
-    def same(self, a: str, b: str) -> bool:
+    def same(self, a: str, b: str, one_ns: bool = False) -> bool:
+        if one_ns and a.startswith('ok') and b.startswith('ok') and abs(int(a.split()[1]) - int(b.split()[1])) <= 1:
+            return True          # known finding F15: float seconds are truncated to nanoseconds
         # an interval whose filter admits no grid point never returns (known finding F7a): the real code spins
         # until the watchdog fires or until the instant leaves whenever's range (ValueError/OverflowError);
         # the model reports DIVERGED when its fuel is used up
